@@ -2,6 +2,8 @@
 
 package jd
 
+import "math"
+
 // Reference semantics written from the property statements (DESIGN.md appendix A).
 // No hashing, no jd method other than type inspection.
 
@@ -51,11 +53,9 @@ func refNumEq(x, y, eps float64) bool {
 	if eps == 0 {
 		return x == y
 	}
-	d := x - y
-	if d < 0 {
-		d = -d
-	}
-	return d <= eps
+	// |x - y| <= eps, written with the same IEEE operations as the documented definition;
+	// 64-bit fp.sub queries do not finish in the solvers available (DESIGN.md section 7)
+	return math.Abs(x-y) <= eps
 }
 
 func refEq(a, b JsonNode, mode int, eps float64) bool {
